@@ -322,7 +322,7 @@ def _mean_grp_task(task, p):
                         with np.errstate(all="ignore"):
                             exp[:, m] = np.where(c > 0, vv.sum(axis=1) / np.maximum(c, 1), np.float64(np.float32(nd)))[:, None]
                     tol = 4 * np.spacing(np.abs(exp).astype(np.float32)).astype(np.float64)
-                    bad = np.abs(out - exp) > tol
+                    bad = ~(np.abs(out - exp) <= tol)
                     p.count("mean_grp_float", evaluations=N, nontrivial=N)
                     for j in np.nonzero(bad.any(axis=1))[0][:3]:
                         p.violation("mean_grp_float", {"x": x[j].tolist(), "labels": list(labels), "nd": nd}, {"kind": "mg_float", "n": n},
@@ -388,7 +388,7 @@ def big_sentinels(ctx):
                             c = valid[:, m].sum(axis=1)
                             sm = np.where(valid[:, m], vals[:, m], 0).sum(axis=1)
                             exp[:, m] = np.where(c > 0, sm / np.maximum(c, 1), float(np.float32(nd)))[:, None]
-                        bad = np.abs(out - exp) > 4 * np.spacing(np.abs(exp).astype(np.float32)).astype(np.float64)
+                        bad = ~(np.abs(out - exp) <= 4 * np.spacing(np.abs(exp).astype(np.float32)).astype(np.float64))
                         ctx.count(sub, evaluations=N)
                         for j in np.nonzero(bad.any(axis=1))[0][:3]:
                             ctx.violation(sub, {"kernel": "mean_grp", "word": vals[j].tolist(), "labels": list(labels), "dtype": dtype, "nodata": nd}, {"kind": "bigsent"},
